@@ -48,7 +48,14 @@ def setup(ctx):
     sm.install(ctx, read=False, write=True)
 
 
+def pinned(tier):
+    return [dict(cls="c_locale")]
+
+
 def run(ctx, case):
+    if case.get("cls") == "c_locale":
+        from rv.monitors import fileio
+        return fileio.check_c_locale(ctx, "C03", "sm")
     from reamber.sm.SMMapSet import SMMapSet
     from rv.gen import sm_mem
 
